@@ -4,6 +4,7 @@ import (
 	"fmt"
 	"go/ast"
 	"go/constant"
+	"go/token"
 	"go/types"
 	"strings"
 )
@@ -114,10 +115,39 @@ func armAssertedType(c *Ctx, f *FuncInfo, val string, param string) types.Type {
 			}
 			var res types.Type
 			scan := func(info *types.Info, body []ast.Stmt, pv *types.Var) {
+				// locals that merely hold the parameter (`var raw interface{} = recipient`, `raw := recipient`)
+				alias := map[types.Object]bool{pv: true}
+				for _, st := range body {
+					ast.Inspect(st, func(m ast.Node) bool {
+						switch x := m.(type) {
+						case *ast.AssignStmt:
+							if x.Tok == token.DEFINE && len(x.Lhs) == len(x.Rhs) {
+								for i, r := range x.Rhs {
+									if o := objOfIdent(info, r); o != nil && alias[o] {
+										if l := objOfIdent(info, x.Lhs[i]); l != nil {
+											alias[l] = true
+										}
+									}
+								}
+							}
+						case *ast.ValueSpec:
+							if len(x.Names) == len(x.Values) {
+								for i, r := range x.Values {
+									if o := objOfIdent(info, r); o != nil && alias[o] {
+										if l := info.Defs[x.Names[i]]; l != nil {
+											alias[l] = true
+										}
+									}
+								}
+							}
+						}
+						return true
+					})
+				}
 				for _, st := range body {
 					ast.Inspect(st, func(m ast.Node) bool {
 						ta, ok := m.(*ast.TypeAssertExpr)
-						if ok && ta.Type != nil && objOfIdent(info, ta.X) == types.Object(pv) && res == nil {
+						if ok && ta.Type != nil && alias[objOfIdent(info, ta.X)] && objOfIdent(info, ta.X) != nil && res == nil {
 							res = info.Types[ta.Type].Type
 						}
 						return true
